@@ -264,3 +264,176 @@ class lower_acc_await_contract:
 
     def canary(sh, a, ret):
         check("canary: no CSR access at all", len(csr_events(list(ret))) == 0)
+
+
+# =====================================================================================
+# RoCC (instruction-configured accelerators): every instruction carries the values currently in effect
+# =====================================================================================
+import itertools  # noqa: E402
+
+import snaxc.accelerators.rocc as rocc  # noqa: E402
+from contracts.accfg import G as AG  # noqa: E402
+from contracts.accfg import infer_rec, mk_state, state_val  # noqa: E402
+
+RFIELDS = ("ia.rs1", "ia.rs2", "ib.rs1", "ib.rs2")
+
+
+def _presence(ninstr):
+    """which of rs1/rs2 the op itself sets, per instruction ('1', '2', '12'); every instruction is named by the op"""
+    return list(itertools.product(("1", "2", "12"), repeat=ninstr))
+
+
+@contract
+class rocc_create_pairs_contract:
+    """for every instruction named in the op: (value in effect for rs1, value in effect for rs2), where a field the op
+    does not write keeps the value of the (inferred) previous state"""
+    target = "snaxc.accelerators.rocc.create_pairs"
+    shapes = [dict(pres=list(p), has_in=h) for n in (1, 2) for p in _presence(n) for h in (True, False)]
+    quick = lambda sh: len(sh["pres"]) == 1 or sh["has_in"]
+    native = False
+    modular = {"snaxc.inference.trace_acc_state.infer_state_of": infer_rec}
+    may_not_return = True
+
+    def args(sh, sym):
+        AG["infer"] = []
+        names, vals = [], []
+        for i, p in enumerate(sh["pres"]):
+            ins = ("ia", "ib")[i]
+            for r in p:
+                names.append(f"{ins}.rs{r}")
+                vals.append(mk_ident_value(sym.int(f"v_{ins}_{r}", 0, 5)))
+        prev = None
+        if sh["has_in"]:
+            prev = state_val()
+            AG["infer"].append((prev, mk_state(sym, "prev", RFIELDS)))
+        op = accfg.SetupOp(vals, names, "gemmini", prev)
+        return [op, names, vals]
+
+    def run(sh, a):
+        return rocc.create_pairs(a[0])
+
+    def raises(sh, a, exc):
+        op, names, vals = a
+        prev = AG["infer"][0][1] if sh["has_in"] else {}
+        missing = False
+        for i, p in enumerate(sh["pres"]):
+            ins = ("ia", "ib")[i]
+            for r in ("1", "2"):
+                f = f"{ins}.rs{r}"
+                missing = missing or (f not in names and f not in prev)
+        check("raising (KeyError) only when a partner field is neither written by the op nor known from the previous state", exc == "KeyError" and missing)
+
+    def ensures(sh, a, ret):
+        op, names, vals = a
+        prev = AG["infer"][0][1] if sh["has_in"] else {}
+        own = dict(zip(names, vals))
+        check("one pair per instruction named in the op", sorted(ret.keys()) == sorted(("ia", "ib")[: len(sh["pres"])]))
+        for i in range(len(sh["pres"])):
+            ins = ("ia", "ib")[i]
+            for k, r in enumerate(("1", "2")):
+                f = f"{ins}.rs{r}"
+                if f in own:
+                    check(f"{f}: the op's own value", ret[ins][k] == own[f])
+                else:
+                    check(f"{f}: optimised away earlier - the value in effect from the previous state", f in prev and ret[ins][k] == prev[f])
+
+    def canary(sh, a, ret):
+        check("canary: both operands of an instruction are always the same value", all(ret[k][0] == ret[k][1] for k in ret))
+
+
+@contract
+class rocc_combine_pairs_contract:
+    target = "snaxc.accelerators.rocc.combine_pairs_to_ops"
+    shapes = [dict(n=n) for n in (1, 2, 3)]
+    total = True
+    compare_ret = False
+    native = False
+
+    def args(sh, sym):
+        ins = ["ia", "ib", "ic"][: sh["n"]]
+        items = []
+        values = {}
+        for i, name in enumerate(ins):
+            items.append((name + ".rs1", IntegerAttr(10 + i, i32)))
+            items.append((name + ".rs2", IntegerAttr(10 + i, i32)))
+            values[name] = (mk_ident_value(sym.int(f"a{i}", 0, 9)), mk_ident_value(sym.int(f"b{i}", 0, 9)))
+        return [items, values, 3, ins]
+
+    def run(sh, a):
+        return rocc.combine_pairs_to_ops(a[0], a[1], a[2])
+
+    def ensures(sh, a, ret):
+        items, values, x, ins = a
+        ops = list(ret)
+        check("one instruction per .rs1 field", len(ops) == len(ins) and all(isinstance(o, llvm.InlineAsmOp) for o in ops))
+        for i in range(min(len(ops), len(ins))):
+            s = ops[i].asm_string if SYMBOLIC else ops[i].asm_string.data
+            check(f"instruction {i}: declared funct7 and custom opcode", s == f".insn r CUSTOM_3, 0x3, {10 + i} ,x0, $0, $1")
+            check(f"instruction {i}: carries (rs1 value, rs2 value)", ops[i].operands[0] == values[ins[i]][0] and ops[i].operands[1] == values[ins[i]][1])
+
+    def canary(sh, a, ret):
+        check("canary: no instruction is emitted", len(list(ret)) == 0)
+
+
+@contract
+class rocc_lower_acc_setup_contract:
+    """a first setup (no previous state) that names only one half of an instruction gets the other half as constant 0;
+    every emitted instruction carries the values in effect"""
+    target = "snaxc.accelerators.rocc.RoCCAccelerator.lower_acc_setup"
+    shapes = [dict(pres=list(p), has_in=h) for p in _presence(1) + [("1", "12"), ("12", "2")] for h in (False, True)]
+    native = False
+    compare_ret = False
+    modular = {"snaxc.inference.trace_acc_state.infer_state_of": infer_rec}
+    may_not_return = True
+
+    def args(sh, sym):
+        AG["infer"] = []
+        names, vals = [], []
+        for i, p in enumerate(sh["pres"]):
+            ins = ("ia", "ib")[i]
+            for r in p:
+                names.append(f"{ins}.rs{r}")
+                vals.append(mk_ident_value(sym.int(f"v_{ins}_{r}", 0, 5)))
+        prev = None
+        if sh["has_in"]:
+            prev = state_val()
+            AG["infer"].append((prev, mk_state(sym, "prev", RFIELDS)))
+        op = accfg.SetupOp(vals, names, "gemmini", prev)
+        acc_op = accfg.AcceleratorOp("gemmini", {"ia.rs1": 10, "ia.rs2": 10, "ib.rs1": 11, "ib.rs2": 11, "ic.rs1": 12, "ic.rs2": 12}, {}, 0)
+        return [op, acc_op, names, vals]
+
+    def run(sh, a):
+        return rocc.RoCCAccelerator.lower_acc_setup(a[0], a[1])
+
+    def raises(sh, a, exc):
+        op, acc_op, names, vals = a
+        prev = AG["infer"][0][1] if sh["has_in"] else {}
+        missing = any(f"{('ia', 'ib')[i]}.rs{r}" not in names and f"{('ia', 'ib')[i]}.rs{r}" not in prev for i in range(len(sh["pres"])) for r in ("1", "2"))
+        check("raising (KeyError) only for a later setup whose partner field is unknown", exc == "KeyError" and sh["has_in"] and missing)
+
+    def ensures(sh, a, ret):
+        op, acc_op, names, vals = a
+        prev = AG["infer"][0][1] if sh["has_in"] else {}
+        own = dict(zip(names, vals))
+        insns = [o for o in ret if isinstance(o, llvm.InlineAsmOp)]
+        used = ("ia", "ib")[: len(sh["pres"])]
+        check("one instruction per instruction named in the setup, none for others", len(insns) == len(used))
+        for i, ins in enumerate(used):
+            if i >= len(insns):
+                break
+            o = insns[i]
+            s = o.asm_string if SYMBOLIC else o.asm_string.data
+            check(f"{ins}: declared funct7", s == f".insn r CUSTOM_3, 0x3, {10 + i} ,x0, $0, $1")
+            for k, r in enumerate(("1", "2")):
+                f = f"{ins}.rs{r}"
+                v = o.operands[k]
+                if f in own:
+                    check(f"{f}: the setup's own value", v == own[f])
+                elif sh["has_in"]:
+                    check(f"{f}: the value in effect from the previous state", f in prev and v == prev[f])
+                else:
+                    check(f"{f}: first setup, never written: materialised as constant 0", isinstance(v.owner, arith.ConstantOp) and den(v) == 0
+                          and any(x is v.owner for x in ret))
+
+    def canary(sh, a, ret):
+        check("canary: no instruction is emitted", len([o for o in ret if isinstance(o, llvm.InlineAsmOp)]) == 0)
